@@ -5,6 +5,7 @@
 dir=$(cd "$1" && pwd); props="$2"
 for d in "$dir"/*/; do
   n=$(basename "$d")
+  if [ -n "$BENIGN_FROM" ] && [ "$n" -lt "$BENIGN_FROM" ]; then continue; fi
   if ! git -C "$VERIF_REPO" apply --check "$d/patch.diff" 2>/dev/null; then echo "benign=$n patch does not apply (stale): skipped"; continue; fi
   git -C "$VERIF_REPO" apply "$d/patch.diff"
   echo "== benign $n: $(head -1 "$d/README.md")"
